@@ -188,6 +188,8 @@ def run_sequence(descs):
                 break
             c = c.refs[0] if c.refs else None
     # load back
+    from .common import lib_canon
+    snapshot = lib_canon(cell)
     s = cell.begin_parse()
     for i, op in enumerate(ops):
         if op.peek is not None:
@@ -211,4 +213,18 @@ def run_sequence(descs):
             probs.append((op.name[0], 'load-value', f'load #{i} {op.name} returned {v!r}, stored {op.value!r}'))
     if s.remaining_bits or s.remaining_refs:
         probs.append((ops[-1].name[0], 'leftover', f'{s.remaining_bits} bits / {s.remaining_refs} refs left unread'))
+    # reading is not writing: the stored cells (the whole DAG, e.g. the continuation cells of a snake string) are what
+    # they were, and a second reader of the same cell gets the same values
+    if lib_canon(cell) != snapshot:
+        probs.append((ops[-1].name[0], 'load-mutates', 'loading the values back changed the cell (or a cell it references)'))
+    s2 = cell.begin_parse()
+    for i, op in enumerate(ops):
+        try:
+            v = op.load(s2)
+        except Exception as e:
+            probs.append((op.name[0], 'reload-raises', f'second read of the same cell: load #{i} {op.name} raised {type(e).__name__}: {e}'))
+            break
+        if not op.eq(v, op.value):
+            probs.append((op.name[0], 'reload-value', f'second read of the same cell: load #{i} {op.name} returned {v!r}, stored {op.value!r}'))
+            break
     return probs, cell
